@@ -21,7 +21,8 @@ Record options := mkOptions {
   o_shutdown_on_remove : bool;
   o_quorum_wait : bool;       (* Raft.quorumWait != 0 *)
   o_slow : bool;              (* oracle: round.Duration() > promoteThreshold *)
-  o_newprev : N;              (* oracle: Log.PrevIndex() after a compaction performed by this event *)
+  o_newprev : N;              (* oracle: Log.PrevIndex() after a compaction performed by this event (0: none) *)
+  o_newremovelte : N;         (* oracle: leader.removeLTE chosen by onSnapshotTaken (a segment boundary; 0: unchanged) *)
   o_order : list N            (* oracle: order in which Go iterates maps keyed by node id *)
 }.
 
@@ -538,7 +539,7 @@ Definition on_change_config (opt : options) (s : nstate) (tid : N) (c : config) 
   else if negb (existsb (fun n => n_voter n && (n_action n =? ActNone) && negb (n_id n =? 0)) (c_nodes c)) then wreply s tid RpInvalid
   else
     s1 <~~ check_config_actions opt FUEL s tid c ;;
-    if configs_committed s1 then do_change_config opt FUEL s1 tid c else wret s1.
+    if c_index (st_latest s1) =? c_index (st_latest s) then do_change_config opt FUEL s1 tid c else wret s1.
 
 Definition on_wait_stable (s : nstate) (tid : N) : outcome W :=
   l <~ get_ldr s ;;
